@@ -486,6 +486,18 @@ def write_evidence(prop, ev):
 
 def do_replay(prop, path, driver):
     txt = open(path).read().split('\n')
+    bl = [l for l in txt if l.startswith('#borrow ')]
+    if bl:
+        import borrowck
+        res = borrowck.run(REPO)
+        still = [p for p in bl[0].split()[1:] if p in res['accepted']]
+        for p in bl[0].split()[1:]:
+            print('%-9s borrow/src/bin/%s.rs' % ('ACCEPTED' if p in still else 'rejected', p))
+        if still:
+            print('VIOLATION property=%s replay=%s' % (prop['property_id'], path))
+            return 1
+        print('replay: every listed program is rejected by the borrow checker')
+        return 0
     build = 'debug'
     m = re.search(r'build=(\S+)', txt[0]) if txt else None
     if m:
@@ -604,6 +616,17 @@ def run_check(prop, tier, seed, replay):
         broken += psites['broken']
         for b in psites['broken']:
             log('BROKEN OBLIGATION ' + b)
+    # compile-fail corpus (fragment key "borrow_corpus", borrow/README.md): a client program that lets an accessor
+    # outlive its owner and COMPILES is a failing input; a program whose outcome is neither is a broken obligation
+    borrow = None
+    if prop.get('borrow_corpus'):
+        import borrowck
+        borrow = borrowck.run(REPO)
+        obligations += borrow['checked']
+        discharged += borrow['checked'] - len(borrow['accepted']) - len(borrow['other'])
+        for name, why in borrow['other']:
+            broken.append('borrow:%s %s' % (name, why))
+            log('BROKEN OBLIGATION borrow:%s %s' % (name, why[:300]))
     driver = build_driver()
 
     if replay:
@@ -720,7 +743,19 @@ def run_check(prop, tier, seed, replay):
     for what, ls in known_hit.items():
         out_lines.append('KNOWN-FINDING: property=%s %s (%d cases, e.g. %s)' % (pid, what, len(ls), ls[0][:200]))
     violations = 0
-    if unknown_spec:
+    if borrow and borrow['accepted'] and not unknown_spec:
+        progs = borrow['accepted']
+        src = open(os.path.join(ROOT, 'borrow', 'src', 'bin', progs[0] + '.rs')).read().split('\n')
+        path = write_replay(pid, 'borrow-violation', prop['builds'][0],
+                            ['client program(s) that let an accessor outlive the region / map it came from are ACCEPTED by rustc '
+                             'against the current source: ' + ', '.join(progs),
+                             'replay: cd borrow && cargo check --offline --bin %s   (must fail with a borrow-checker error)' % progs[0],
+                             'source of borrow/src/bin/%s.rs:' % progs[0]] + ['    ' + x for x in src]
+                            + ['broken proof obligation: ' + x for x in broken], ['#borrow ' + ' '.join(progs)])
+        out_lines.append('VIOLATION property=%s replay=%s' % (pid, path))
+        violations = len(progs)
+        exit_code = 1
+    elif unknown_spec:
         b, s, l = unknown_spec[0]
         if 'CRASH' in l:
             small = l
